@@ -1,7 +1,10 @@
 (* C18 — The renderer always serves the last successfully built template set. Theorems only.
-   (Race freedom of concurrent Reload / Instance is checked under the Go race detector: the Go memory
-   model cannot be exhibited by an executable Gallina model — partial, see DESIGN.md.) *)
-From Tpl Require Import Sys.Reload Proofs.ReloadProps.
+   Concurrency: Sys/ReloadConc.v splits Reload and a request into their atomic steps (build; store under the lock /
+   load under the read lock; look-up) and the theorems below hold for EVERY schedule of any number of threads:
+   the run is linearizable with respect to the sequential model, in real-time order.  That the store and the load are
+   atomic with respect to each other (sync.RWMutex) and that nothing else touches the field is checked under the Go
+   race detector: the Go memory model cannot be exhibited by an executable Gallina model — partial, see DESIGN.md. *)
+From Tpl Require Import Sys.Reload Proofs.ReloadProps Sys.ReloadConc Proofs.ReloadConcProps.
 
 Theorem serves_last_success : forall ops i ex b first,
   nth_error ops i = Some (Render ex b) \/ nth_error ops i = Some (Get ex b) ->
@@ -24,6 +27,38 @@ Proof. exact ReloadProps.reload_answers. Qed.
 Theorem content_type_only_if_empty : forall ex ct,
   write_content_type ex ct = match ex with [] => ct | _ => ex end.
 Proof. exact ReloadProps.content_type_only_if_empty. Qed.
+(* ---- every schedule of concurrent Reloads and requests ---- *)
+Theorem no_torn_state : forall c threads sched, fresh threads ->
+  c_cur (crun (cinit c threads) sched) = last_success c (ops_of threads (c_lin (crun (cinit c threads) sched))).
+Proof. exact ReloadConcProps.no_torn_state. Qed.
+Theorem lin_nodup : forall c threads sched, fresh threads -> NoDup (c_lin (crun (cinit c threads) sched)).
+Proof. exact ReloadConcProps.lin_nodup. Qed.
+Theorem linearizable : forall c threads sched i a, fresh threads ->
+  nth_error (c_threads (crun (cinit c threads) sched)) i = Some (TDone a) ->
+  exists k, index_of (c_lin (crun (cinit c threads) sched)) i = Some k /\
+            nth_error (run false (mkRS c) (ops_of threads (c_lin (crun (cinit c threads) sched)))) k = Some a.
+Proof. exact ReloadConcProps.linearizable. Qed.
+Theorem real_time_order : forall c threads sched s1 s2 i j kj, fresh threads ->
+  sched = s1 ++ s2 ->
+  (exists ai, nth_error (c_threads (crun (cinit c threads) s1)) i = Some (TDone ai)) ->
+  ~ In j s1 ->
+  index_of (c_lin (crun (cinit c threads) sched)) j = Some kj ->
+  exists ki, index_of (c_lin (crun (cinit c threads) sched)) i = Some ki /\ ki < kj.
+Proof. exact ReloadConcProps.real_time_order. Qed.
+Theorem request_after_reload_sees_it : forall c threads sched s1 s2 r q v ex a, fresh threads ->
+  sched = s1 ++ s2 ->
+  nth_error threads r = Some (TReload (BOk v)) -> nth_error threads q = Some (TReq ex) ->
+  nth_error (c_threads (crun (cinit c threads) s1)) r = Some (TDone AReloadOk) -> ~ In q s1 ->
+  nth_error (c_threads (crun (cinit c threads) sched)) q = Some (TDone a) ->
+  exists v', a = lookup_in v' ex /\
+    (v' = v \/ exists r' kr kr' kq, r' <> r /\ nth_error threads r' = Some (TReload (BOk v')) /\
+       index_of (c_lin (crun (cinit c threads) sched)) r = Some kr /\
+       index_of (c_lin (crun (cinit c threads) sched)) r' = Some kr' /\
+       index_of (c_lin (crun (cinit c threads) sched)) q = Some kq /\ kr < kr' /\ kr' < kq).
+Proof. exact ReloadConcProps.request_after_reload_sees_it_strong. Qed.
+Print Assumptions linearizable.
+Print Assumptions real_time_order.
+Print Assumptions request_after_reload_sees_it.
 Print Assumptions serves_last_success.
 Print Assumptions hot_builds_afresh.
 Print Assumptions reload_answers.
@@ -32,3 +67,10 @@ Example reload_example :
   new_render false BFail [Render true BFail; Reload (BOk 1); Render true BFail; Reload BFail; Render false BFail; Reload (BOk 2); Get true BFail]
   = [AReloadErr; ANoSet; AReloadOk; AServed 1; AReloadErr; ANotFound 1; AReloadOk; AServed 2].
 Proof. reflexivity. Qed.
+
+(* a request's load falls between a Reload's build and its store: it is served from the old set, and linearized first *)
+Example conc_example :
+  let s := crun (cinit (Some 0) [TReload (BOk 1); TReq true; TReload BFail; TReq false; TReload (BOk 2)]) [0; 1; 0; 2; 1; 3; 3] in
+  c_lin s = [1; 0; 2; 3] /\ c_cur s = Some 1 /\
+  c_threads s = [TDone AReloadOk; TDone (AServed 0); TDone AReloadErr; TDone (ANotFound 1); TReload (BOk 2)].
+Proof. repeat split; reflexivity. Qed.
